@@ -610,7 +610,7 @@ fn main() {
     check.sample("ex", || serde_json::to_value(&ex[ex.len() / 2]).unwrap());
 
     // 2. random long histories (proptest generates; batches run in supervised workers)
-    let n = check.tier.pick(6000usize, 400_000);
+    let n = check.tier.pick(24_000usize, 400_000);
     let mut runner = proptest::test_runner::TestRunner::new_with_rng(
         proptest::test_runner::Config { failure_persistence: None, ..Default::default() },
         proptest::test_runner::TestRng::from_seed(proptest::test_runner::RngAlgorithm::ChaCha, &{
